@@ -835,7 +835,8 @@ def run_conn(ctx, cid, P):
         return
     if not rcv.closed:
         ctx.violation(dict(key, clause="not_closed"), W, "reader not closed")
-    if rcv_session is not None and rcv_session.resumable:
+    if rcv_session is not None and (rcv_session.resumable or
+                                    rcv_session.valid()):
         ctx.violation(dict(key, clause="still_resumable"), W,
                       "session resumable after integrity failure")
     try:
